@@ -34,7 +34,8 @@ VARIANTS = {
                     ["-fsanitize=thread"]),
     "plain": ("gcc", ["-O1", "-g"], []),
     # one callback per executed basic block (harness/cost.c counts them): the cost measure of C07
-    "cov": ("gcc", ["-O1", "-g0", "-fsanitize-coverage=trace-pc"], []),
+    # (-fno-builtin: string and memory functions stay calls into libc, which the harness wraps to count the bytes they handle)
+    "cov": ("gcc", ["-O1", "-g0", "-fsanitize-coverage=trace-pc", "-fno-builtin"], []),
 }
 RUN_ENV = dict(os.environ, ASAN_OPTIONS="detect_leaks=0:abort_on_error=0:allocator_may_return_null=1",
                UBSAN_OPTIONS="print_stacktrace=1:halt_on_error=1")
@@ -172,6 +173,10 @@ def build_harness(variant, name, extra_src=(), extra_flags=()):
         with open(stamp, "w") as f:
             f.write(key)
     return out
+
+
+COST_WRAP = ["-Wl," + ",".join("--wrap=" + f for f in ("strlen", "strcat", "strncat", "strcpy", "strncpy", "memcpy", "memmove", "memset", "strcmp", "strncmp",
+                                                            "memcmp", "strstr", "strchr", "strrchr", "strdup", "vsnprintf"))]
 
 
 # ---------------------------------------------------------------- coq
